@@ -176,7 +176,8 @@ def _follow_await(caller, bi, fut_local):
     # the Pending arm: (false_edge ->) block that yields
     pend = arms[1]
     hops = 0
-    while hops < 3 and blocks[pend]['term']['k'] in ('false_edge', 'goto') and not any(s['k'] == 'assign' for s in blocks[pend]['stmts']):
+    # (the Pending arm may first drop temporaries of the awaited expression before it yields)
+    while hops < 6 and blocks[pend]['term']['k'] in ('false_edge', 'goto', 'drop') and _has_marker(blocks[pend]['term']):
         dead.append(pend)
         pend = blocks[pend]['term']['target']
         hops += 1
@@ -363,6 +364,7 @@ _COMB = {
     'std::option::Option::<T>::unwrap_or_else': ('opt', 'unwrap_or_else'),
     'std::result::Result::<T, E>::unwrap_or_else': ('res', 'unwrap_or_else'),
     'core::bool::<impl bool>::then': ('bool', 'then'),
+    'core::bool::<impl bool>::then_some': ('bool', 'then_some'),
     'std::option::Option::<T>::filter': ('opt', 'filter'),
     'std::iter::Iterator::for_each': ('iter', 'for_each'),
     'std::option::Option::<T>::map': ('opt', 'map'),
@@ -393,7 +395,7 @@ def _goto(b, sp=None):
     return {'k': 'goto', 'target': b, 'sp': sp, 'ex': []}
 
 
-def _find_closure(body, op):
+def _find_closure(body, op, depth=0):
     """the closure aggregate feeding operand `op`: (def path, statement location, aggregate statement)"""
     if op.get('k') not in ('move', 'copy') or op['place']['p']:
         return None
@@ -409,6 +411,12 @@ def _find_closure(body, op):
     rv = st['rv']
     if rv.get('k') == 'agg' and rv.get('agg') == 'closure':
         return rv['def'], bi, si, st
+    # a copy of / a reference to the closure value (`&f`, `f` for Copy closures)
+    if depth < 4:
+        if rv.get('k') == 'use' and rv['op'].get('k') in ('move', 'copy'):
+            return _find_closure(body, rv['op'], depth + 1)
+        if rv.get('k') == 'ref' and not rv['place']['p']:
+            return _find_closure(body, {'k': 'copy', 'place': rv['place']}, depth + 1)
     return None
 
 
@@ -516,6 +524,11 @@ def _expand_one(body, bodies, bi, kind, how):
     if target is None:
         raise _NoInline('diverging')
     a0 = args[0]
+    if kind == 'bool' and how == 'then_some':
+        b_some = _mk_block(body, [{'k': 'assign', 'place': copy.deepcopy(dest), 'rv': _agg('std::option::Option', 'Some', 1, [copy.deepcopy(args[1])]), 'sp': sp, 'ex': []}], _goto(target, sp))
+        b_none = _mk_block(body, [{'k': 'assign', 'place': copy.deepcopy(dest), 'rv': _agg('std::option::Option', 'None', 0, []), 'sp': sp, 'ex': []}], _goto(target, sp))
+        body['blocks'][bi]['term'] = {'k': 'switch', 'discr': copy.deepcopy(a0), 'arms': [[0, b_none]], 'otherwise': b_some, 'sp': sp, 'ex': []}
+        return
     if kind == 'bool':
         fop = args[1]
         tmp = _mk_local(body, '?')
@@ -647,6 +660,27 @@ def expand_combinators(j):
             if not fn:
                 continue
             p = fn.get('resolved') or fn.get('path')
+            if fn.get('path') in ('std::ops::Fn::call', 'std::ops::FnMut::call_mut', 'std::ops::FnOnce::call_once') and fn.get('self_closure') and len(t['args']) == 2 and t.get('target') is not None:
+                # `f(x)` on a closure value of this body: splice the closure in
+                snapshot = (len(b['blocks']), len(b['locals']), copy.deepcopy(b['blocks'][bi - 1]))
+                try:
+                    tup = t['args'][1]
+                    ops = None
+                    if tup.get('k') in ('move', 'copy') and not tup['place']['p']:
+                        ds = [st for bl2 in b['blocks'] for st in bl2['stmts'] if st['k'] == 'assign' and st['place']['l'] == tup['place']['l'] and not st['place']['p']]
+                        if len(ds) == 1 and ds[0]['rv'].get('k') == 'agg' and ds[0]['rv'].get('agg') == 'tuple':
+                            ops = ds[0]['rv']['ops']
+                    if ops is None:
+                        raise _NoInline('argument tuple')
+                    entry = _emit_call(b, bodies, t['args'][0], ops, t['dest'], t['target'], t.get('sp'))
+                    b['blocks'][bi - 1]['term'] = _goto(entry, t.get('sp'))
+                    notes.append('expanded closure call in %s' % b['path'])
+                except _NoInline as e:
+                    del b['blocks'][snapshot[0]:]
+                    del b['locals'][snapshot[1]:]
+                    b['blocks'][bi - 1] = snapshot[2]
+                    notes.append('NOT expanded closure call in %s: %s' % (b['path'], e))
+                continue
             if p not in _COMB:
                 continue
             kind, how = _COMB[p]
